@@ -129,6 +129,10 @@ fn open_case<A: Ar>(base: &Base, oc: &OpenCase, path: &PathBuf) -> std::io::Resu
 /// Expected outcome per the statement: error iff an identification field is invalid or differs from
 /// what the caller expects, or the file cannot hold the prefix.
 fn expect_ok<A: Ar>(base: &Base, file: &[u8], oc: &OpenCase) -> bool {
+    expect_ok_in::<A>(base, file, oc, true)
+}
+
+fn expect_ok_in<A: Ar>(base: &Base, file: &[u8], oc: &OpenCase, compare_freelist: bool) -> bool {
     let off = base.cfg.offset as usize;
     let reserved = off + base.cfg.reserved as usize;
     let prefix = off + base.cfg.options().data_offset_unify::<A>();
@@ -140,9 +144,9 @@ fn expect_ok<A: Ar>(base: &Base, file: &[u8], oc: &OpenCase) -> bool {
     if fl > 2 {
         return false;
     }
-    let writable = oc.mode < 2;
     let expected_fl = if oc.wrong_fl { (base.cfg.freelist + 1) % 3 } else { base.cfg.freelist };
-    if writable && fl != expected_fl {
+    // the statement makes no exception for read-only opens
+    if compare_freelist && fl != expected_fl {
         return false;
     }
     if &id[2..4] != b"al" {
@@ -185,7 +189,11 @@ fn one_case<A: Ar>(base: &Base, file: &[u8], oc: &OpenCase, path: &PathBuf, what
             let ro = a.read_only();
             drop(a);
             if !want_ok {
-                push(out, "accepted_invalid", format!("{}: open succeeded but the statement requires an error", desc));
+                // call site of the known finding: a read-only open takes the freelist kind from the file instead of
+                // comparing it with what the caller expects; everything else about the file is valid
+                let only_ro_freelist = oc.mode >= 2 && expect_ok_in::<A>(base, file, oc, false);
+                let tag = if only_ro_freelist { "[readonly-freelist] " } else { "" };
+                push(out, "accepted_invalid", format!("{}{}: open succeeded but the statement requires an error", tag, desc));
             }
             if ro || oc.mode == 1 {
                 let after = std::fs::read(path).unwrap_or_default();
@@ -210,8 +218,10 @@ fn one_case<A: Ar>(base: &Base, file: &[u8], oc: &OpenCase, path: &PathBuf, what
 }
 
 fn push(out: &mut CorruptOut, class: &'static str, detail: String) {
-    if out.viols.iter().all(|v| v.class != class) {
-        out.viols.push(Violation { prop: "C09", class, detail, op: 0 });
+    let v = Violation { prop: "C09", class, detail, op: 0 };
+    let sig = v.signature();
+    if out.viols.iter().all(|x| x.signature() != sig) {
+        out.viols.push(v);
     }
 }
 
